@@ -155,7 +155,7 @@ TIDS, GIDS = ("t1", "t2"), ("g1", "g2")
 def _ok(e1, ft, tid, gid, s2, l2):
     if T2 and ft != T2:
         return False
-    if not (2 <= e1 <= 3 and ft in TYPES and tid in TIDS and gid in GIDS and s2 in (1, 3) and 0 <= l2 <= 1):
+    if not (e1 in (2, 5) and ft in TYPES and tid in TIDS and gid in GIDS and s2 in (1, 3) and 0 <= l2 <= 1):
         return False
     # consistent files: a transcript belongs to one gene (line 1 says t1 -> g1); at most one explicit line per id
     if ft != "gene" and tid == "t1" and gid != "g1":
@@ -169,7 +169,7 @@ def _lines(e1, ft, tid, gid, s2, l2):
     ft, tid, gid = hx.pick(ft, TYPES), hx.pick(tid, TIDS), hx.pick(gid, GIDS)
     s2 = 1 if s2 == 1 else 3
     l2 = 0 if l2 == 0 else 1
-    e1 = 2 if e1 == 2 else 3
+    e1 = 2 if e1 == 2 else 5
     return [("exon", "t1", "g1", 2, e1), (ft, tid, gid, s2, s2 + l2)] + _third()
 
 
